@@ -325,6 +325,7 @@ def run(tier):
     rule_R6(res, prog)
     rule_R7(res, prog)
     rule_R8(res, prog)
+    rule_R9(res, prog)
     return res.finish()
 
 
@@ -712,4 +713,61 @@ def rule_R8(res, prog):
                          "key->N: a signature value s + N (or any s >= N) is processed and verifies exactly like s" % (
                              fn.relfile, ln, ln, [p_[1] for p_ in esc[-6:]]), file=fn.relfile, line=ln)
         res.instance(rid, "psRsaCrypt:%s pstm_exptmod behind the input < N test" % ln, esc is None, finding=f_)
+    res.floor(rid, 2)
+
+
+def rule_R9(res, prog):
+    """Weak keys are refused: wherever a key size obtained from psRsaSize / psEccSize / a DH parameter size is compared
+    with a constant lower bound, the constant is the configured minimum of that key type (MIN_RSA_BITS / 8,
+    MIN_ECC_BITS / 8, MIN_DH_BITS / 8), and its `smaller` outcome is an error exit."""
+    from sa import cfgutil as cu
+    from sa.pp import pp
+    rid = "C11.R9"
+    res.rule(rid, "key-size floors compare with the minimum configured for that key type (RSA / ECC / DH)")
+    MIN = {"Rsa": prog.const("MIN_RSA_BITS") // 8, "Ecc": prog.const("MIN_ECC_BITS") // 8}
+    try:
+        MIN["Dh"] = prog.const("MIN_DH_BITS") // 8
+    except Exception:
+        pass
+    n = 0
+    for fn in sorted(prog.functions.values(), key=lambda f: f.qname):
+        if not fn.blocks or not fn.relfile.startswith("crypto/") or "/test/" in fn.relfile:
+            continue
+        # sizes: lvalue text -> key kind, from assignments `X = psRsaSize(..)` / `psEccSize(..)`
+        assigns = []          # (block id, lvalue text, kind)
+        for b in fn.blocks:
+            for i, ln, x in cu.block_exprs(b):
+                for nd in walk(x):
+                    if nd.get("k") == "bin" and nd["op"] == "=":
+                        r = strip(nd["r"])
+                        while r is not None and r.get("k") == "cast":
+                            r = strip(r["e"])
+                        if r is not None and r.get("k") == "call" and r.get("fn") in ("psRsaSize", "psEccSize"):
+                            assigns.append((b["id"], cu.ftext(strip(nd["l"])), "Rsa" if "Rsa" in r["fn"] else "Ecc"))
+        if not assigns:
+            continue
+        dom = cu.dominators(fn)
+        for b in fn.blocks:
+            t = b.get("term")
+            if t is None or "c" not in t:
+                continue
+            for m in walk(t["c"]):
+                if m.get("k") == "bin" and m["op"] in ("<", "<=") and (strip(m["r"]) or {}).get("k") == "int":
+                    lt = cu.ftext(strip(m["l"]))
+                    cands = [a for a in assigns if a[1] == lt and a[0] in dom[b["id"]]]
+                    if not cands:
+                        continue
+                    # the closest dominating assignment: the one dominated by all the others
+                    best = max(cands, key=lambda a: len(dom[a[0]]))
+                    kind = best[2]
+                    K = strip(m["r"])["v"] + (1 if m["op"] == "<=" else 0)
+                    n += 1
+                    ok = K == MIN[kind]
+                    f_ = None
+                    if not ok:
+                        f_ = Finding(PROP, rid, fn.name, "%s key-size floor is %d bytes" % (kind.upper(), K),
+                                     "%s:%s %s(): the size from ps%sSize() is refused only below %d bytes; the configured minimum for this key "
+                                     "type is %d bytes (MIN_%s_BITS / 8): keys the configuration calls too weak are accepted" % (
+                                         fn.relfile, t["ln"], fn.name, kind, K, MIN[kind], kind.upper()), file=fn.relfile, line=t["ln"])
+                    res.instance(rid, "%s:%s %s size < %d (minimum %d)" % (fn.name, t["ln"], kind, K, MIN[kind]), ok, finding=f_)
     res.floor(rid, 2)
